@@ -1192,6 +1192,11 @@ func (env *SpecEnv) call(x *SExpr) (*Term, types.Type) {
 				a, _ := env.tr(args[0])
 				b, _ := env.tr(args[1])
 				return And(Eq(SArr(a), SArr(b)), Eq(SOff(a), SOff(b))), types.Typ[types.Bool]
+			case "distinctarr":
+				// two slices over different backing arrays (no element of one is an element of the other)
+				a, _ := env.tr(args[0])
+				b, _ := env.tr(args[1])
+				return Not(Eq(SArr(a), SArr(b))), types.Typ[types.Bool]
 			case "allocated":
 				v, _ := env.tr(args[0])
 				return And(Lt(Root(v), env.cur.ctr)), types.Typ[types.Bool]
